@@ -1346,9 +1346,21 @@ def c06(ctx: Ctx) -> None:
     # R5
     task_vars = set()
     for n in g.nodes:
-        if n.kind == 'store_name' and isinstance(n.meta.get('value'), ast.Call) and call_name(g, n.meta['value']) in (
-                'asyncio.create_task', 'asyncio.ensure_future'):
+        v_ = n.meta.get('value') if n.kind == 'store_name' else None
+        if isinstance(v_, ast.Call) and (call_name(g, v_) in ('asyncio.create_task', 'asyncio.ensure_future') or (
+                isinstance(v_.func, ast.Attribute) and v_.func.attr == 'create_task')):      # (also `<loop>.create_task(...)`)
             task_vars.add(n.meta['name'])
+    # ... handed on under another name (the value a spawn helper returns, read in place)
+    grew_ = True
+    while grew_:
+        grew_ = False
+        for n in g.nodes:
+            v_ = n.meta.get('value') if n.kind == 'store_name' else None
+            if isinstance(v_, ast.Name) and v_.id in task_vars and n.meta['name'] not in task_vars:
+                others_ = [x for x in g.nodes if x.kind == 'store_name' and x.meta['name'] == n.meta['name'] and x is not n]
+                if all(isinstance(x.meta.get('value'), ast.Name) and x.meta['value'].id in task_vars for x in others_):
+                    task_vars.add(n.meta['name'])
+                    grew_ = True
     for n in g.nodes:
         if n.kind == 'call':
             rm = r._recv_meth(n)
